@@ -14,8 +14,8 @@ RULE = ('one case = one redistribution (PTG or DTD) of one window between one ge
 FLOORS = (20, 12)
 
 QUICK = [('asan', 1, 2, 7), ('asan', 2, 2, 7), ('asan', 3, 1, 6), ('asan', 4, 2, 6), ('rel', 2, 4, 10), ('rel', 4, 1, 10)]
-THOROUGH = [('asan', 1, 1, 90), ('asan', 1, 4, 90), ('asan', 2, 1, 80), ('asan', 2, 3, 80), ('asan', 3, 2, 80), ('asan', 4, 1, 60), ('asan', 4, 2, 60),
-            ('rel', 1, 4, 100), ('rel', 2, 2, 100), ('rel', 3, 3, 100), ('rel', 4, 2, 80), ('rel', 4, 4, 80)]
+THOROUGH = [('asan', 1, 1, 60), ('asan', 1, 4, 60), ('asan', 2, 1, 50), ('asan', 2, 3, 50), ('asan', 3, 2, 50), ('asan', 4, 1, 40), ('asan', 4, 2, 40),
+            ('rel', 1, 4, 70), ('rel', 2, 2, 70), ('rel', 3, 3, 70), ('rel', 4, 2, 60), ('rel', 4, 4, 60)]
 COV = ('ptg_reshuffle', 'ptg_general', 'dtd', 'window_elements', 'target_elements_checked', 'different_tile_sizes', 'unaligned_displacement',
        'multi_owner_both_sides', 'side_2dbc', 'side_tabular', 'side_sbc')
 
@@ -35,7 +35,7 @@ def _last_at(r):
 
 
 def _run(ctx, exe, ranks, threads, args, tag):
-    return ctx.run([exe, '--threads', str(threads)] + [str(a) for a in args], timeout=7200, stall_s=150, mpi=ranks, tag=tag)
+    return ctx.run([exe, '--threads', str(threads)] + [str(a) for a in args], timeout=7200, stall_s=400, mpi=ranks, tag=tag)
 
 
 def _take(ctx, r, fl):
@@ -46,6 +46,8 @@ def _take(ctx, r, fl):
     ctx.nontrivial_extra += s['distinct_nontrivial']
     for k in COV:
         ctx.add_cov(k, s[k])
+    for k, v in s.get('ptg_fast_path_boundary', {}).items():
+        ctx.add_cov('ptg_fast_path_condition_broken:' + k, v)
     ctx.add_cov('cases_%s_%dranks' % (fl, s['ranks']), s['cases'])
     ctx.max_cov('max_threads', s['threads'])
     for smp in r.of('sample')[:1]:
@@ -89,7 +91,7 @@ def run(ctx):
     ctx.rule = RULE
     ctx.assumptions = ['legal requests only: window inside both matrices (not reaching into the padding), displacements >= 0, element type double, tile storage, whole-matrix descriptors',
                        'sbc sides only with a window that lies completely in stored tiles (the wrapper rejects anything else)',
-                       'every rank generates the same case list from the seed; one case in five uses the DTD implementation',
+                       'every rank generates the same case list from the seed; one case in six uses the DTD implementation; one case in three sits on the boundary of the fast-path selection (exactly one of its six conditions broken, in rotation)',
                        'values are exact in double: 1 + i + 10000 j for the source, -(2 + i + 10000 j) - 0.25 for the untouched target']
     exes = {f: ctx.harness('c21_redist', f) for f in ('asan', 'rel')}
     plan = THOROUGH if thorough else QUICK
